@@ -25,7 +25,8 @@ MARK = 0x1000
 OUTCOMES = ["success", "revert", "panic", "failflag", "stuck"]
 GUARDS = ["eq", "unreach", "mulsat", "mulunsat"]
 REPLIES = ["truth", "unknown", "hang", "slow_over", "crash_empty", "crash_partial", "garbage", "error_line",
-           "rc_nonzero_valid", "spawn_oserror", "core_missing", "core_garbled", "core_empty"]
+           "rc_nonzero_valid", "spawn_oserror", "core_missing", "core_garbled", "core_empty",
+           "fs_enospc", "fs_short_write", "fs_out_eio"]
 PANIC_CODES = [0x01, 0x11, 0x12, 0x21]
 VERDICT_OF_EXIT = {0: "PASS", 1: "FAIL", 2: "TIMEOUT", 3: "ERROR", 4: "ERROR", 5: "ERROR"}
 SIG = "check_f(uint256,uint256)"
@@ -131,7 +132,7 @@ class C05Check:
             "{reachable, contradictory (kept alive by injected branching `unknown`), needs-mul-refinement sat / unsat}, default "
             "leaf, per-leaf solver reply kind in {truthful, unknown, hang->timeout, slower than the limit, crash with empty output, "
             "crash with truncated output, garbage, (error ...), non-zero exit with valid output, spawn OSError, unsat core line "
-            "missing / garbled}, --early-exit, --cache-solver, --solver-threads 1-4). Enumerated: all single-leaf vectors and the "
+            "missing / garbled / empty, query file write ENOSPC, silently truncated query file, EIO while storing the solver output}, --early-exit, --cache-solver, --solver-threads 1-4). Enumerated: all single-leaf vectors and the "
             "pairs (sat leaf x every other leaf/reply), options rotated (quick) or crossed (thorough); afterwards random vectors. "
             "Every case runs halmos' run_contract twice under two different seeded schedules (worker / per-job thread / callback "
             "interleavings, solver latencies 1ms-7s, optional line-level pre-emption in __main__/solve/processes). Oracle: verdict "
@@ -245,12 +246,31 @@ class C05Check:
                 info["param"] = zlib.crc32(repr((vec, leaf_idx)).encode())
                 if r == "slow_over":
                     return "slow"
+                if r.startswith("fs_"):
+                    return "truth"  # the fault sits in the file system; the solver answers whatever file it finds
                 if r in ("core_missing", "core_garbled", "core_empty"):
                     if info["truth"] == "unsat":
                         return {"core_missing": "stdout:unsat\n", "core_garbled": "stdout:unsat\n(<12 <oops\n",
                                 "core_empty": "stdout:unsat\n()\n"}[r]
                     return "truth"
                 return r
+
+            def fs_plan(path, kind, observed=observed):
+                base = os.path.basename(path)
+                if ".refined" in base:
+                    return None
+                pid = base.split(".")[0]
+                leaf_idx = next((o["leaf"] for o in observed if str(o["path_id"]) == pid), None)
+                if leaf_idx is None or leaf_idx >= len(leaves):
+                    return None
+                r = leaves[leaf_idx]["reply"]
+                if kind == "query" and r == "fs_enospc":
+                    return "enospc"
+                if kind == "query" and r == "fs_short_write":
+                    return ("short", zlib.crc32(repr((vec, leaf_idx, "cut")).encode()))
+                if kind == "out" and r == "fs_out_eio" and base.endswith(".out"):
+                    return "eio"
+                return None
 
             args = R.make_args(early_exit=vec["early_exit"], cache_solver=vec["cache"], solver_threads=vec["threads"],
                                solver_timeout_assertion=timeout_s,
@@ -277,7 +297,7 @@ class C05Check:
                     hm.run_message = orig_rm
 
             out = R.run_under_sim(ch, main, solver=solver, plan=plan, preempt_k=preempt_k, keep_log=keep_log,
-                                  unknown_rate=1.0, max_steps=40000)
+                                  unknown_rate=1.0, max_steps=40000, fs_plan=fs_plan)
             runs.append((out, observed))
             v = self.judge(vec, out, observed, timeout_s)
             violations.extend(v)
@@ -457,6 +477,7 @@ class C05Check:
 
     def judge(self, vec, out, observed, timeout_s):
         vio = []
+        leaves = vec["leaves"]
         if out.outcome == "deadlock":
             return [dict(oracle="C05:hang", disc="deadlock",
                          detail=f"run_test never returned: parked {out.sim.deadlock_info}; vector {vec}")]
@@ -495,7 +516,14 @@ class C05Check:
         incomplete = False
         for o in observed:
             hs = by_path.get(str(o["path_id"]), [])
+            fs_reply = leaves[o["leaf"]]["reply"] if (o["leaf"] is not None and o["leaf"] < len(leaves)) else ""
             if o["cls"] == "potential":
+                if fs_reply == "fs_enospc" and not hs:
+                    counts["err"] += 1  # the query file could not be written: the job fails before any solver starts
+                    continue
+                if fs_reply == "fs_out_eio" and hs and not any(h["refined"] for h in hs):
+                    counts["err"] += 1  # the solver answered, storing its output failed: the job ends with an exception
+                    continue
                 if not hs:
                     if vec["cache"] and cache_hits:
                         # answered from the unsat-core cache: what counts is what the solver would have said
@@ -517,11 +545,14 @@ class C05Check:
                 if cls == "sat" and "f_evm_" not in h["stdout"]:
                     valid_sat_delivered = True
             elif o["cls"] == "stuck":
+                if not hs and fs_reply == "fs_enospc":
+                    main_thread_spawn_error = True  # the exception surfaces in the main thread and aborts the test
+                    continue
                 if not hs:
                     incomplete = True
                     continue
                 h = hs[0]
-                if h["kind"] == "spawn_oserror":
+                if h["kind"] == "spawn_oserror" or fs_reply == "fs_out_eio":
                     main_thread_spawn_error = True
                 elif delivered_class(h) != "unsat":
                     n_stuck += 1
